@@ -15,7 +15,7 @@ Import ListNotations.
 Require Import XV.Str XV.Json XV.TextFormat XV.Forest XV.Matcher XV.Differ XV.Spec XV.Path XV.WF XV.PathProofs XV.Render
                XV.XmlFmt XV.Projections XV.XmlFmtProofs1 XV.XmlFmtProofs2 XV.XmlFmtProofs5 XV.XmlFmtProofsB XV.XmlFmtProofsC
                XV.PrefixProofs XV.XmlFmtDiffer3 XV.XmlFmtDiffer XV.TextTagsFlat.
-Require XV.Placeholder XV.PlaceholderUndo XV.DMP.
+Require XV.Placeholder XV.PlaceholderUndo XV.DMP XV.Serialize XV.SerializeProofs XV.SerializeDoc XV.XmlFmtNames3.
 Local Open Scope N_scope.
 
 Theorem C08_prepare_flat_texttags : forall (c : cfg) (L R : tree),
@@ -51,6 +51,34 @@ Proof.
   exact (differ_format_b c o pe L R rootL rootR lns rns m pro H1 H2 H3 H4 H5 H6 H7 H8 H9 H10).
 Qed.
 Print Assumptions C08_C09_C10_flat_texttags.
+
+(* ... and the printed string (pretty_print = False, documents without namespaces of their own: doc_xnb) parses back
+   to the result tree: C08_prints_wellformed_differ without its premise text_tags = [] *)
+Theorem C08_prints_wellformed_flat_texttags :
+  forall (c : cfg) (o : oracle) (pe : penv) (L R : forest) (rootL rootR : id)
+         (lns rns : nsmap) (m : list (id * id)) (pro : list iact),
+  wf_forest L rootL -> wf_forest R rootR -> valid_matching L R rootL rootR m ->
+  ns_prologue lns rns = Some pro ->
+  ns_decl_okb pe lns rns L rootL R rootR = true ->
+  doc_names_okb pe L rootL = true -> doc_names_okb pe R rootR = true ->
+  doc_okb L = true -> doc_okb R = true ->
+  XmlFmtNames3.doc_xnb L = true -> XmlFmtNames3.doc_xnb R = true ->
+  (c_replace c = true -> text_size R rootR <= 6393) ->
+  let script := pro ++ out (gen_script [] R rootR L rootL m) in
+  let W := remove_comments (doc_tree L rootL) in
+  let WR := remove_comments (doc_tree R rootR) in
+  tt_flat (c_tt c) W = true -> tt_flat (c_tt c) WR = true ->
+  prepare c (doc_tree L rootL) (doc_tree R rootR) = (Placeholder.ph_init, W, WR) /\
+  exists gs T, render_script pe rootL L script = Some gs /\
+    xml_format c o lns Placeholder.ph_init gs W = FOk T /\ out_clean T = true /\ SerializeDoc.dnode_ok T = true /\
+    forall P, SerializeProofs.P_ok P ->
+      Serialize.parse P (Serialize.pneed T) (SerializeDoc.render P T) = Some (SerializeProofs.nk T).
+Proof.
+  intros c o pe L R rootL rootR lns rns m pro H1 H2 H3 H4 H5 H6 H7 H8 H9 X1 X2 H10 script W WR HL HR.
+  split; [exact (C08_prepare_flat_texttags c (doc_tree L rootL) (doc_tree R rootR) HL HR)|].
+  exact (XmlFmtNames3.differ_prints_b c o pe L R rootL rootR lns rns m pro H1 H2 H3 H4 H5 H6 H7 H8 H9 X1 X2 H10).
+Qed.
+Print Assumptions C08_prints_wellformed_flat_texttags.
 
 (* non-vacuity: <a><b>xy</b>t<c/></a> -> <a k="1"><b>xz</b>t<d/></a> with text_tags = ["b"; "c"; "d"],
    formatting_tags = ["i"]: b, c, d have no element children, every premise holds by computation *)
